@@ -58,6 +58,7 @@ TEMPLATES = {
     "optarr": ('<array name="f{i}" type="char" optional="true"/>', False),
     "optarrS": ('<array name="f{i}" type="S" length="2" optional="true"/>', False),
     "optlenstr": ('<length name="n{i}" type="char" optional="true"/><field name="f{i}" type="string" length="n{i}" optional="true"/>', False),
+    "optlenbrk": ('<length name="n{i}" type="char" optional="true"/><break/><field name="f{i}" type="string" length="n{i}" optional="true"/>', True),
     "hardbool": ('<field name="f{i}" type="bool">true</field>', False),
     "hardboolun": ('<field type="bool">false</field>', False),
     "hardstrnamed": ('<field name="f{i}" type="string" length="3">abc</field>', False),
